@@ -194,6 +194,10 @@ func (s *Session) Load(ctx context.Context, key interface{}, store Loader) ([]by
 		return nil, err
 	}
 
+	if drr == nil {
+		return nil, errors.New("data row record not found")
+	}
+
 	return s.Decrypt(ctx, *drr)
 }
 
